@@ -156,7 +156,9 @@ def check_function_export(ctx, name, quick):
                 if got.shape != w.shape:
                     ctx.violation(sig + "/shape", case, "field %s has shape %s, expected %s" % (key, got.shape, w.shape))
                     continue
-                tol = 0.0 if binary else 1e-14
+                # binary output stores the doubles themselves: exact where the transformation does no arithmetic; abs / log_abs / abs_squared /
+                # callable are floating-point expressions whose value is fixed by the property only up to rounding
+                tol = (0.0 if not nonlinear else 1e-13) if binary else 1e-13
                 sc = float(np.max(np.abs(w))) or 1.0
                 err = float(np.max(np.abs(got - w))) / sc
                 ctx.observe("function-data", err, tol)
